@@ -18,13 +18,14 @@ CONSTANTS MaxId,     \* entity ids 1..MaxId
           MaxGen,    \* recycling depth
           Comps, Rels, Sized,
           MaxRegs,
-          CapIncC
+          CapIncC,
+          MaxSteps   \* bound on the length of histories (breadth-first: every state is reached by a shortest history)
 
-VARIABLES s, g, last
-vars == <<s, g, last>>
+VARIABLES s, g, last, steps
+vars == <<s, g, last, steps>>
 
 Cfg1 == [comps |-> Comps, rels |-> Rels, sized |-> Sized, nres |-> 0, totalBits |-> 256,
-         lst |-> [on |-> TRUE, S |-> 63, C |-> {}, hasC |-> FALSE], isDispatch |-> FALSE, subs |-> <<>>]
+         lst |-> [on |-> TRUE, S |-> 63, C |-> {}, hasC |-> FALSE], isDispatch |-> FALSE, subs |-> <<>>, capInc |-> 1, relCapInc |-> 0]
 Cfg2 == [rels |-> Rels, sized |-> Sized, capInc |-> CapIncC, relCapInc |-> 0]
 
 F(k, ids) == [k |-> k, ids |-> ids, exc |-> <<>>, tgt |-> Zero, reg |-> -1, subs |-> <<>>]
@@ -47,7 +48,7 @@ BatchFilters ==
            : i \in { j \in DOMAIN g.regs : g.regs[j].live } }
 AbsF(bf) == IF bf.fid = -1 THEN bf.f ELSE CachedF(bf.fid, bf.f)
 
-Init == s = LInit(Cfg2) /\ g = InitWorld(Cfg1) /\ last = [op |-> "init", l1 |-> "", l2ok |-> TRUE]
+Init == s = LInit(Cfg2) /\ g = InitWorld(Cfg1) /\ last = [op |-> "init", l1 |-> "", l2ok |-> TRUE] /\ steps = 0
 
 RoomFor(n) == Len(s.pool.ents) - 1 - s.pool.avail + n <= MaxId /\ Len(s.pool.ents) - 1 + (IF n > s.pool.avail THEN n - s.pool.avail ELSE 0) <= MaxId
 GenOK == \A i \in DOMAIN s.pool.ents : s.pool.ents[i][2] <= MaxGen
@@ -138,13 +139,14 @@ Unregister ==
         /\ g' = [g EXCEPT !.regs[i].live = FALSE]
         /\ last' = [op |-> "Unregister", l1 |-> "", l2ok |-> TRUE]
 
-Next == Create \/ Remove \/ Exchange \/ SetVal \/ SetRel \/ BatchExchange \/ BatchSetRel \/ BatchRemove
-        \/ Reset \/ Register \/ Unregister
+Next == /\ (Create \/ Remove \/ Exchange \/ SetVal \/ SetRel \/ BatchExchange \/ BatchSetRel \/ BatchRemove
+            \/ Reset \/ Register \/ Unregister)
+        /\ steps' = steps + 1
 
 Spec == Init /\ [][Next]_vars
 
 View == <<s, g>>
-Bound == GenOK
+Bound == GenOK /\ steps <= MaxSteps
 
 ---------------------------------------------------------------------------
 Struct == StructInv(s)
